@@ -981,12 +981,19 @@ func (c *seeCtx) liveStores(stores []placeStore, at ssa.Instruction) []placeStor
 	var out []placeStore
 	for i, s1 := range stores {
 		dead := false
-		if s1.st.Parent() == fn {
+		sf := s1.st.Parent()
+		// the point in s1's function after which the load may happen: the load
+		// itself, or the creation of the closure (chain) that contains the load
+		var site ssa.Instruction = at
+		if sf != fn {
+			site = closureSiteIn(sf, fn)
+		}
+		if site != nil {
 			for j, s2 := range stores {
-				if i == j || s2.st.Parent() != fn {
+				if i == j || s2.st.Parent() != sf {
 					continue
 				}
-				if InstrDominates(s1.st, s2.st) && InstrDominates(s2.st, at) {
+				if InstrDominates(s1.st, s2.st) && InstrDominates(s2.st, site) {
 					dead = true
 					break
 				}
@@ -997,4 +1004,30 @@ func (c *seeCtx) liveStores(stores []placeStore, at ssa.Instruction) []placeStor
 		}
 	}
 	return out
+}
+
+// closureSiteIn returns the unique MakeClosure instruction in outer that
+// creates the closure (or an ancestor closure) in which inner is nested.
+func closureSiteIn(outer, inner *ssa.Function) ssa.Instruction {
+	child := inner
+	for child != nil && child.Parent() != outer {
+		child = child.Parent()
+	}
+	if child == nil {
+		return nil
+	}
+	var site ssa.Instruction
+	n := 0
+	for _, b := range outer.Blocks {
+		for _, in := range b.Instrs {
+			if mc, ok := in.(*ssa.MakeClosure); ok && mc.Fn == child {
+				site = mc
+				n++
+			}
+		}
+	}
+	if n == 1 {
+		return site
+	}
+	return nil
 }
